@@ -84,7 +84,18 @@ def receiver_kinds():
         io = ConsoleIO(Input(StringInputStream("")), Output(so, _formatter(ansi)), Output(se, _formatter(ansi)))
         return io.section(), [so, se], True
 
-    return dict(output=out, section=section, upper_section=second_section, buffered_io=bio,
+    def null_io(ansi):
+        # the I/O kind that writes nowhere - until its outputs are given streams (Output.set_stream): from then on they are
+        # outputs like any other
+        from clikit.io.null_io import NullIO
+        io = NullIO()
+        so, se = BufferedOutputStream(), BufferedOutputStream()
+        io.output.set_stream(so)
+        io.error_output.set_stream(se)
+        io.set_formatter(_formatter(ansi))
+        return io, [so, se], False
+
+    return dict(null_io_with_streams=null_io, output=out, section=section, upper_section=second_section, buffered_io=bio,
                 buffered_io_section=bio_section, io=plain_io, io_section=plain_io_section,
                 console_io=console_io, console_io_section=console_io_section)
 
@@ -107,6 +118,8 @@ def run_case(case):
     kind, ansi, meth, verbosity, flags, quiet, prefill = case[:7]
     split = len(case) > 7 and case[7]
     text = case[8] if len(case) > 8 else "msg"
+    if text == "<long>":
+        text = "long message " * 1600  # 20 800 characters: more than any buffer or chunk size a stream layer may use
     recv, streams, is_section = receiver_kinds()[kind](ansi)
     outs = [recv] if not hasattr(recv, "error_output") else [recv.output, recv.error_output]
     # sections are pre-filled (while loud) so that clear/overwrite have something to act on
@@ -146,7 +159,7 @@ def run_case(case):
     if wrote != should:
         side = "leak" if wrote else "lost"
         sig = "%s:%s.%s:%s%s%s" % (side, "section" if is_section else "plain-recv", meth, "ansi" if ansi else "plain",
-                                   ":other-output-differs" if split else "", ":empty-text" if text == "" else "")
+                                   ":other-output-differs" if split else "", ":empty-text" if text == "" else (":long-text" if len(text) > 1000 else ""))
         return report.viol(sig, "%s.%s(flags=%r) at verbosity %d quiet=%s ansi=%s: wrote=%s, gate says %s" % (
             kind, meth, flags, verbosity, quiet, ansi, wrote, should), case, should, {"wrote": wrote, "delta": [a[len(b):] if a.startswith(b) else a for a, b in zip(after, before)]})
     return None
@@ -169,6 +182,9 @@ def cases():
                     if "line" in meth and not is_section:
                         # an empty line: the text is "" but a line break reaches the stream - gated like any other write
                         out.append([kind, ansi, meth, v, f, q, pf, False, ""])
+                    if meth not in ("clear", "overwrite") and not pf and ansi and v in (0, 4):
+                        # a very long message: gated like a short one
+                        out.append([kind, ansi, meth, v, f, q, pf, False, "<long>"])
     return out
 
 
